@@ -180,10 +180,107 @@ def _path_outcome(p: T.Any, subst: T.Callable[[ast.AST], ast.AST]) -> T.Tuple[T.
     return tables.default_outcome(p, subst)
 
 
+class Memo(T.NamedTuple):
+    cache: ast.AST          # the subscripted cache expression (cls._cache / module dict)
+    key: ast.AST
+    value: ast.AST          # the expression that is cached
+    node: ast.AST
+
+
+def _strip_memo(fn: T.Any) -> T.Tuple[T.Any, T.Optional[Memo]]:
+    """Hand-written memoisation removed:  try: return C[K] / except KeyError: v = C[K] = E; return v   and
+    if K in C: return C[K]; ...; C[K] = E; return ...    become the plain computation of E.  Returns the function to
+    read and what was cached under which key (None: no cache idiom)."""
+    import copy
+    fn = c13_norm.inline_locals(fn)          # `key = (cls, arg)` named first
+    body = [x for x in fn.body if not (isinstance(x, ast.Expr) and isinstance(x.value, ast.Constant))]
+    hit: T.Optional[ast.Subscript] = None
+    rest: T.Optional[T.List[ast.stmt]] = None
+    if body and isinstance(body[0], ast.Try) and len(body[0].body) == 1 and isinstance(body[0].body[0], ast.Return) \
+            and isinstance(body[0].body[0].value, ast.Subscript) and len(body[0].handlers) == 1 and not body[0].orelse and not body[0].finalbody \
+            and attr_chain(body[0].handlers[0].type) == 'KeyError':
+        hit = body[0].body[0].value
+        rest = list(body[0].handlers[0].body) + body[1:]
+    elif body and isinstance(body[0], ast.If) and not body[0].orelse and len(body[0].body) == 1 and isinstance(body[0].body[0], ast.Return) \
+            and isinstance(body[0].body[0].value, ast.Subscript) and isinstance(body[0].test, ast.Compare) and len(body[0].test.ops) == 1 \
+            and isinstance(body[0].test.ops[0], ast.In) and norm(body[0].test.comparators[0]) == norm(body[0].body[0].value.value) \
+            and norm(body[0].test.left) == norm(body[0].body[0].value.slice):
+        hit = body[0].body[0].value
+        rest = body[1:]
+    if hit is None or rest is None:
+        return fn, None
+    slot = norm(hit)
+    value: T.Optional[ast.AST] = None
+    new_rest: T.List[ast.stmt] = []
+    for st in copy.deepcopy(rest):
+        if isinstance(st, ast.Assign) and any(norm(t) == slot for t in st.targets):
+            if value is not None:
+                raise Undecided(f'{fn.name}: the cache slot {slot} is stored twice')
+            value = st.value
+            st.targets = [t for t in st.targets if norm(t) != slot]
+            if not st.targets:
+                continue
+        new_rest.append(st)
+    if value is None:
+        raise Undecided(f'{fn.name}: a cache lookup {slot} without a store of the computed value')
+
+    class L(ast.NodeTransformer):
+        def visit_Subscript(self, n: ast.Subscript) -> ast.AST:
+            if norm(n) == slot and isinstance(n.ctx, ast.Load):
+                return ast.copy_location(copy.deepcopy(value), n)  # type: ignore[arg-type]
+            return self.generic_visit(n)
+    fn2 = copy.copy(fn)
+    fn2.body = [L().visit(x) for x in new_rest]
+    ast.fix_missing_locations(fn2)
+    return fn2, Memo(hit.value, hit.slice, value, hit)
+
+
+def _check_memo(ctx: RuleCtx, mod: Module, qn: str, fn: T.Any, memo: T.Optional[Memo]) -> None:
+    """A hand-written cache of a classifier must be keyed on everything the cached value depends on: the argument and, as
+    the class tables differ between the flavours (CompilerArgs / CLike / D), the class - unless every class that
+    overrides one of the tables read also has its own cache object."""
+    if memo is None:
+        return
+    reads_cls = sorted({n.attr for n in ast.walk(memo.value) if isinstance(n, ast.Attribute) and attr_chain(n.value) in ('cls', 'self')})
+    params = [a.arg for a in fn.args.args if a.arg not in ('self', 'cls')]
+    reads_params = sorted({n.id for n in ast.walk(memo.value) if isinstance(n, ast.Name) and n.id in params})
+    key_names = {n.id for n in ast.walk(memo.key) if isinstance(n, ast.Name)}
+    missing_params = [p_ for p_ in reads_params if p_ not in key_names]
+    cache_chain = attr_chain(memo.cache)
+    per_class = False
+    if reads_cls and not ({'cls', 'self'} & key_names):
+        if cache_chain and cache_chain.split('.')[0] in ('cls', 'self') and cache_chain.count('.') == 1:
+            # shared unless every family class that overrides a table it depends on also defines its own cache
+            cname = cache_chain.split('.')[1]
+            overriders: T.List[str] = []
+            own: T.List[str] = []
+            for rel in (ARGLIST, CLIKE, 'mesonbuild/compilers/d.py'):
+                if not ctx.repo.exists(rel):
+                    continue
+                m2 = ctx.repo.module(rel)
+                for q, c in m2.classes().items():
+                    if any(m2.has_assign(t_, c) for t_ in reads_cls) and q != ROOT:
+                        overriders.append(q)
+                        if m2.has_assign(cname, c):
+                            own.append(q)
+            per_class = bool(overriders) and overriders == own
+        if not per_class:
+            ctx.violation(mod, qn, memo.node, f'the result cached in `{norm(memo.node)}` is computed from {", ".join("cls." + x for x in reads_cls)}, which differs between '
+                          f'the argument-list flavours, but the cache key `{norm(memo.key)}` does not contain the class: the first flavour that classifies an argument '
+                          'decides for all others (a -I cached by a plain CompilerArgs is then appended by a C-like list)', memo.node)
+            return
+    if missing_params:
+        ctx.violation(mod, qn, memo.node, f'the result cached in `{norm(memo.node)}` depends on {missing_params}, which is not part of the key `{norm(memo.key)}`', memo.node)
+        return
+    ctx.ok(f'{qn}: hand-written cache `{norm(memo.node)}` is keyed on everything the cached value reads')
+
+
 def r2(ctx: RuleCtx) -> None:
     # (a) order of the classification chain, on every world of its atoms
     mod, cdef, fn = _resolve(ctx, CLIKE, 'CLikeCompilerArgs', '_can_dedup')
     qn = f'{cdef.name}._can_dedup'
+    fn, memo = _strip_memo(fn)
+    _check_memo(ctx, mod, qn, fn, memo)
     fn = _inline(mod, cdef.name, fn)
     tab = tables.extract(fn, name=qn, pure={'search', 'match', 'fullmatch'}, outcome=_path_outcome)
     tests: T.Dict[Atom, ArgTest] = {}
@@ -237,6 +334,8 @@ def r2(ctx: RuleCtx) -> None:
     # (b) _should_prepend is equivalent to "starts with an entry of prepend_prefixes", on every world of its atoms
     pmod, pcdef, pfn = _resolve(ctx, CLIKE, 'CLikeCompilerArgs', '_should_prepend')
     pqn = f'{pcdef.name}._should_prepend'
+    pfn, pmemo = _strip_memo(pfn)
+    _check_memo(ctx, pmod, pqn, pfn, pmemo)
     pfn = _inline(pmod, pcdef.name, pfn)
     ptab = tables.extract(pfn, name=pqn, outcome=_path_outcome)
     ptests: T.Dict[Atom, ArgTest] = {}
